@@ -15,7 +15,8 @@ EXPLANATION = (
     '/ geodesic statistics are computed per RDM, never across the stack; (PURE) no transform writes its input (E3). The '
     'invariance clauses reduce to the operand-symmetry obligations of C03, which are re-evaluated here for the rank and '
     'correlation measures. Tie-averaged ranks, quantile maps and the invariances themselves are NOT decided numerically.'
-    ' Also: (API) zero-length edges of the min-max graph are part of the graph (networkx reads zero entries as missing edges); (RUNLEN) in the rank helpers of rdm.compare.')
+    ' Also: (API) zero-length edges of the min-max graph are part of the graph (networkx reads zero entries as missing edges); (RUNLEN) in the rank helpers of rdm.compare.'
+    ' Round 6: (PART) values equal to a quantile threshold of the geo-topological transform fall in exactly one mask.')
 ASSUMPTIONS = ['scipy.stats.rankdata(nan_policy="omit") ranks the non-missing entries and keeps NaN',
                'statement order inside one block decides the ORDER obligations']
 FLOOR = 45
